@@ -1,12 +1,13 @@
 #!/bin/sh
-# Build the framework from files on disk only (offline): Lean library + native model driver,
-# Go harness against /repo with the verif hooks.
+# Build the framework from files on disk only (offline): Lean proofs + native model drivers and
+# the Go harnesses (against /repo with the verif hooks) for every registered property.
+# Each ./check rebuilds incrementally what it needs, so this is only a warm-up.
 set -e
 cd "$(dirname "$0")"
 export GOFLAGS=-mod=mod GOPROXY=off GOSUMDB=off GOTOOLCHAIN=local
 python3 tools/gendriver.py
-if [ -d tools/factgen ]; then (cd tools/factgen && go1.26 run . -repo /repo -out ../../lean/Vgi/Generated); fi
-(cd lean && lake build Vgi vgidriver)
 mkdir -p bin run replays evidence
-(cd harness && go1.26 build -tags verif -o ../bin/harness .)
+targets=""
+for f in checks.d/C*.json; do id=$(basename "$f" .json); targets="$targets Vgi.Props.$id vgidriver_$id"; done
+(cd lean && lake build $targets)
 echo setup ok
